@@ -76,8 +76,9 @@ PREDICATES = {
     "C12-F2": lambda case, clause: case.get("sideload") == "unbreakable-values"
     and clause in ("feature-missing-or-shifted", "feature-unexpected", "subregions-differ"),
     # a Prepeptide on a gene that a sideloaded region boundary cuts
-    "C12-F1": lambda case, clause: has(case, "prepeptide") and clause == "region-file-not-loadable"
-    and case.get("sideload") in ("two-subs", "origin-sub", "origin-subs"),
+    "C12-F1": lambda case, clause: clause == "region-file-not-loadable" and (
+        (has(case, "prepeptide") and case.get("sideload") in ("two-subs", "origin-sub", "origin-subs"))
+        or (case.get("layout") == "long" and has(case, "prepeptide-long") and case.get("sideload") == "both")),
 }
 
 fid = sys.argv[1]
